@@ -651,6 +651,57 @@ impl Exec {
                 self.trees.insert(dst, slot);
                 Ok(if poisoned { "poisoned" } else { "ok" }.into())
             }
+            ["clonefrom", dst, src] => {
+                // `dst.clone_from(&src)` on two EXISTING trees of one type (possibly configured differently)
+                self.count("clonefrom");
+                let (dst, src) = (num(dst)?, num(src)?);
+                if dst == src {
+                    return Err(bad());
+                }
+                let s = self.trees.get(&src).ok_or_else(bad)?;
+                let (stree, scontent) = (s.tree.as_ref().map(|t| t.clone_box()), s.content.clone());
+                let d = self.trees.get_mut(&dst).ok_or_else(bad)?;
+                match (d.tree.as_mut(), stree) {
+                    (Some(dt), Some(st)) => {
+                        let r = catch_unwind(AssertUnwindSafe(|| dt.clone_from_any(st.as_ref())));
+                        match r {
+                            Ok(true) => {
+                                d.content = scontent;
+                                d.ops_since_check = 0;
+                                Ok("ok".into())
+                            }
+                            Ok(false) => Err("bad-op clone_from between different tree types".into()),
+                            Err(_) => {
+                                d.tree = None;
+                                self.stats.panics += 1;
+                                self.tick("C15");
+                                self.fail("C15", "clone_from panicked".into());
+                                Ok("panic".into())
+                            }
+                        }
+                    }
+                    (None, Some(st)) => {
+                        // a poisoned destination is simply replaced
+                        d.tree = Some(st);
+                        d.content = scontent;
+                        Ok("ok".into())
+                    }
+                    (_, None) => {
+                        d.tree = None;
+                        Ok("poisoned".into())
+                    }
+                }
+            }
+            ["hdig", t, k, w] => {
+                self.count("hdig");
+                let t = num(t)?;
+                let (k, w) = (parse_xtok(k).ok_or_else(bad)?, parse_xtok(w).ok_or_else(bad)?);
+                let slot = self.trees.get(&t).ok_or_else(bad)?;
+                Ok(match slot.tree.as_ref().and_then(|t| t.digests(&k, &w)) {
+                    Some((kd, vd)) => format!("{} {}", hex(&kd), hex(&vd)),
+                    None => "none".into(),
+                })
+            }
             ["ups", t, k, kd, vd, rest @ ..] => {
                 self.count("ups");
                 let t = num(t)?;
@@ -984,7 +1035,24 @@ impl Exec {
                     (Some(x), Some(y)) => (x, y),
                     _ => return Ok("ok".into()),
                 };
-                let bad_ = ta.cached() != tb.cached() || ta.ser() != tb.ser() || ta.cached().is_none();
+                // the expectation is the executor's own: same expected configuration (hasher, seed,
+                // width, base, key type — `clone_from` hands the source's on) and same recorded
+                // content. Anything else is not comparable and nothing is checked.
+                if ta.cfg_id() != tb.cfg_id() || sa.content != sb.content {
+                    return Ok("ok".into());
+                }
+                let hashed = catch_unwind(AssertUnwindSafe(|| {
+                    let (mut ca, mut cb) = (ta.clone_box(), tb.clone_box());
+                    (ca.hash(), cb.hash(), ca.ser(), cb.ser())
+                }));
+                let bad_ = match hashed {
+                    Ok((ha, hb, sa_, sb_)) => {
+                        ha != hb
+                            || sa_ != sb_
+                            || (ta.cached().is_some() && tb.cached().is_some() && (ta.cached() != tb.cached() || ta.ser() != tb.ser()))
+                    }
+                    Err(_) => true,
+                };
                 self.tick("C18");
                 if bad_ {
                     self.fail("C18", "two trees with the same hasher, base and content are not interchangeable (constructor / builder order / clone)".into());
